@@ -413,7 +413,9 @@ def _vf(name, family, tier, seed, module="MCGenVec", tpl="Gen_Vec.cfg.tpl"):
 
 
 def c07(tier, seed, work):
-    return vec_check("C07", tier, seed, work, [_vf("c07-rsp", "rsp", tier, seed)],
+    W = dict(module="MCGenWireVec")
+    return vec_check("C07", tier, seed, work, [_vf("c07-rsp", "rsp", tier, seed), _vf("c07-message", "message", tier, seed, **W),
+                                               _vf("c07-wrapper", "wrapper", tier, seed, **W), _vf("c07-setup", "setup", tier, seed, **W)],
                      "Every response table of LayerTables.tla: each field over its whole domain around two seeded base records, optional "
                      "tails, and every body length below the minimum (must be rejected).")
 
@@ -425,17 +427,33 @@ def c06(tier, seed, work):
 
 
 def c17(tier, seed, work):
-    return vec_check("C17", tier, seed, work, [_vf("c17-reuse", "reuse", tier, seed)],
+    W = dict(module="MCGenWireVec")
+    return vec_check("C17", tier, seed, work, [_vf("c17-reuse", "reuse", tier, seed), _vf("c17-message", "message", tier, seed, **W),
+                                               _vf("c17-wrapper", "wrapper", tier, seed, **W)],
                      "For every tabulated response layer every ordered pair (earlier, later) of members of different classes (full, other "
                      "values, all zeros, all ones, with/without optional tail, short forms): decode later into the used value and into a "
                      "fresh one; TLC requires equality.")
 
 
 def c05(tier, seed, work):
-    return vec_check("C05", tier, seed, work, [_vf("c05-total", "totality", tier, seed)],
+    W = dict(module="MCGenWireVec")
+    return vec_check("C05", tier, seed, work, [_vf("c05-total", "totality", tier, seed), _vf("c05-message", "message", tier, seed, **W),
+                                               _vf("c05-wrapper", "wrapper", tier, seed, **W), _vf("c05-setup", "setup", tier, seed, **W)],
                      "Totality of every decodable layer (28 layers): pseudo-random strings of many lengths incl. 500..512, constant strings, "
                      "every prefix and single-byte substitution {00,7F,80,FF} at every offset of valid encodings; each decoded on an "
                      "exact-capacity slice and inside a 512-byte buffer with two fillings (results must agree).")
 
 
-CHECKS.update({"C05": c05, "C06": c06, "C07": c07, "C17": c17})
+def c08(tier, seed, work):
+    W = dict(module="MCGenWireVec")
+    return vec_check("C08", tier, seed, work, [_vf("c08-message", "message", tier, seed, **W), _vf("c08-wrapper", "wrapper", tier, seed, **W),
+                                               _vf("c08-setup", "setup", tier, seed, **W), _vf("c08-aes", "aes", tier, seed, **W)],
+                     "Each value of the two-way layers (IPMI message for all 64 NetFn values with every completion code, command, address, "
+                     "sequence/LUN, body code, enterprise number and payload lengths 0..40; v2.0 wrapper for IPMI/SOL/OEM-explicit/set-up/OEM-handle "
+                     "payload types, unauthenticated and authenticated under the three integrity algorithms with payloads 0..200; v1.5 wrapper for "
+                     "every authentication type; RAKP Message 1 for usernames 0..32 bytes; AES-128-CBC for payloads 0..200 with fresh and reused "
+                     "buffers) is emitted as a serialise vector and as a decode vector against the same specification encoding, which is the "
+                     "round trip in both directions; AuthCodes are HMAC terms evaluated with the standard library.")
+
+
+CHECKS.update({"C05": c05, "C06": c06, "C07": c07, "C08": c08, "C17": c17})
